@@ -319,3 +319,62 @@ hp!(u12_catch_perf_n2, 2);
 //@ bound: bounded: 3 objects; calculator position, the nth argument, the score state (all u32 fields) and the caller's Difficulty (mods bits, passed_objects, lazer symbolic; clock rate unset or 1.5) symbolic; CatchPerformance::calculate replaced by a recording stub
 //@ clause: C15 (e): nth(state, n) processes min(n+1, remaining) objects, last processes all remaining, next one; None exactly when nothing remains. C03: the performance builder that gets calculated equals Performance(attributes after i objects).difficulty(D).passed_objects(i).state(S) field for field, i = objects consumed so far
 hp!(u12_catch_perf_n3, 3);
+
+// ---- C02: the gradual constructor and the one-shot path convert the objects with the same arguments ---------------
+use crate::model::mods::Reflection;
+use crate::catch::object::palpable::PalpableObject;
+
+static mut CO_CALLS: u32 = 0;
+static mut CO_ARGS: [(u8, bool, u32); 2] = [(0, false, 0); 2];
+
+/// Recording replacement for catch `convert_objects`: notes (reflection, hr_offsets, cs) and returns no objects.
+fn rec_convert_objects(
+    _map: &Beatmap,
+    _count: &mut ObjectCountBuilder,
+    reflection: Reflection,
+    hr_offsets: bool,
+    cs: f32,
+) -> Vec<PalpableObject> {
+    unsafe {
+        if (CO_CALLS as usize) < 2 {
+            CO_ARGS[CO_CALLS as usize] = (reflection as u8, hr_offsets, cs.to_bits());
+        }
+        CO_CALLS += 1;
+    }
+    Vec::new()
+}
+
+//@ obl: id=U12.catch.convert_args harness=u12_catch_convert_args stubs=yes props=C02 tier=quick kind=proof
+//@ fns: CatchGradualDifficulty::new, catch DifficultyValues::calculate (call sites of convert_objects)
+//@ bound: object-free catch map; all legacy mod bits, explicit hardrock_offsets setting present or absent (both values), CS override absent; convert_objects replaced by a recording stub
+//@ clause: the gradual constructor and the one-shot calculation call convert_objects with the same reflection, hardrock-offset flag and circle size, and the flag is the Difficulty's effective setting (explicit value, else the HR mod) - so both paths build the same object list
+#[kani::proof]
+#[kani::unwind(4)]
+#[kani::stub(crate::catch::convert::convert_objects, rec_convert_objects)]
+#[kani::stub(<Movement as StrainSkill>::process, stub_process)]
+#[kani::stub(<Movement as StrainSkill>::cloned_difficulty_value, stub_value)]
+fn u12_catch_convert_args() {
+    let mut map = Beatmap::default();
+    map.mode = GameMode::Catch;
+    let bits: u32 = kani::any();
+    let mut d = Difficulty::new().mods(bits);
+    if kani::any() {
+        d = d.hardrock_offsets(kani::any());
+    }
+    let expect_hr = d.get_hardrock_offsets();
+    match CatchGradualDifficulty::new(d.clone(), &map) {
+        Ok(g) => std::mem::forget(g),
+        Err(_) => {
+            assert!(false, "C02 own-mode gradual constructor cannot fail");
+            return;
+        }
+    }
+    let v = DifficultyValues::calculate(&d, &map);
+    std::mem::forget(v);
+    unsafe {
+        assert!(CO_CALLS == 2, "C02 each path converts the objects exactly once");
+        assert!(CO_ARGS[0] == CO_ARGS[1], "C02 gradual and one-shot paths convert the objects with the same reflection, hardrock offsets and circle size");
+        assert!(CO_ARGS[0].1 == expect_hr, "C02 the Difficulty's hardrock_offsets setting is honoured");
+    }
+    std::mem::forget(map);
+}
